@@ -277,6 +277,27 @@ def _part_loaded(case, fails, slack, tmpdir):
     D = _dataset(rng, N, n, case["dtype"], None)
     D64 = D.astype(np.float64)
     cut = int(rng.integers(1, N + 1))  # first `cut` rows come from the file, the rest are accumulated on top
+    if rng.integers(4) == 0:
+        # a statistics file that holds no vector yet: "without statistics" -> local standardisation, have_stats falsy
+        path0 = os.path.join(tmpdir, f"stats0_{case['seed']}.npy")
+        np.save(path0, np.zeros((2, n + 1)))
+        try:
+            with warnings.catch_warnings():
+                warnings.simplefilter("ignore")
+                std0 = Standardize(path0, norm_var=norm_var)
+                hs = std0.have_stats
+                x = _ro(D)
+                res0 = std0.apply(x, axis=-1)
+        except Exception as e:  # noqa
+            fails.append(("C16.raises", f"empty statistics file: {type(e).__name__}: {e}"))
+            return True
+        if hs:
+            fails.append(("C16.have_stats", "have_stats is truthy for a loaded file that holds zero vectors"))
+        m0, s0 = D64.mean(axis=0), np.sqrt(D64.var(axis=0))
+        exp0, mag0 = _expected(D, -1, m0, s0 if norm_var else None)
+        ok0, worst0, msg0 = _compare(res0, exp0, mag0, None, -1)
+        if not ok0:
+            fails.append(("C16.local_values", f"empty statistics file, local standardisation: {msg0}"))
     head = D64[:cut]
     stats = np.zeros((2, n + 1))
     for row in head:  # sums written by hand
@@ -392,9 +413,13 @@ def _part_mismatch(case, fails, slack):
     if not _accumulate(std, _plan(rng, D), fails, "setup"):
         return True
     probe = _ro(D[:2].astype(np.float64))
-    with warnings.catch_warnings():
-        warnings.simplefilter("ignore")
-        before = std.apply(probe, axis=-1)
+    try:
+        with warnings.catch_warnings():
+            warnings.simplefilter("ignore")
+            before = std.apply(probe, axis=-1)
+    except Exception as e:  # noqa
+        fails.append(("C16.input_unmodified" if "read-only" in str(e) else "C16.raises", f"apply on a matching (2,{n}) tensor raised {type(e).__name__}: {e}"))
+        return True
     m = n + int(rng.choice([-1, 1, 2])) if n > 1 else n + int(rng.choice([1, 2]))
     k = int(rng.integers(2, 4))
     dt = np.dtype(case["dtype"])
@@ -415,9 +440,13 @@ def _part_mismatch(case, fails, slack):
                 fails.append(("C16.mismatch_raises", f"apply {name}: input changed although ValueError"))
             if not in_place:
                 _expect_value_error(lambda: std.accumulate(x, axis=axis), f"accumulate {name} after {n}-coefficient statistics", fails)
-    with warnings.catch_warnings():
-        warnings.simplefilter("ignore")
-        after = std.apply(probe, axis=-1)
+    try:
+        with warnings.catch_warnings():
+            warnings.simplefilter("ignore")
+            after = std.apply(probe, axis=-1)
+    except Exception as e:  # noqa
+        fails.append(("C16.mismatch_raises", f"apply fails after rejected calls: {type(e).__name__}: {e}"))
+        return True
     if before.tobytes() != after.tobytes():
         fails.append(("C16.mismatch_raises", "rejected calls changed the statistics"))
     # and the transform is still the right one
